@@ -69,6 +69,10 @@ def run(ck: Check) -> None:
             vcases.append(Case("vdeleg", [role, u, t, False], tag="accepted-as-trusted"))
         if t["signed"]["type"] == "root":
             vcases.append(Case("vroot", [t, t], tag="accepted-root-pair"))
+        # ... and verify_root on *any* two documents the checker accepts (root or not, with or without a version), in both positions
+        other = accepted[(len(vcases) * 7) % len(accepted)]
+        vcases.append(Case("vroot", [t, other], tag="accepted-any-pair"))
+        vcases.append(Case("vroot", [other, t], tag="accepted-any-pair"))
     res = ck.run_cases(vcases, "corr:verifiers-on-accepted-metadata/outcome-class")
     for r in res:
         ck.oracle_checks += 1
